@@ -227,6 +227,13 @@ class IsoDepInitiator(object):
                 log.error("ISO-DEP protocol error: block number")
                 raise Type4TagCommandError(nfc.tag.PROTOCOL_ERROR)
 
+            if (((data[0] & 0x10 and len(data) < 2)
+                 or len(response) + len(data) - 1 > 65538)):
+                # a chained block without information or more than
+                # the largest response apdu, the card may chain forever
+                log.error("ISO-DEP protocol error: response chaining")
+                raise Type4TagCommandError(nfc.tag.PROTOCOL_ERROR)
+
             response = response + data[1:]
             self.pni = (self.pni + 1) % 2
 
